@@ -44,6 +44,9 @@ OUTSIDE = ["real kernel behaviour (partial write(2), fsync ordering, torn sector
            "HTTP faults are decided in C14 (same fault model)"]
 
 ERRNOS = [errno.ENOSPC, errno.EACCES, errno.EIO, errno.ENOENT]
+# errors with which a probing stat() says "there is no such file" (pathlib treats exactly these as a negative answer)
+NO_SUCH_FILE = (errno.ENOENT, errno.ENOTDIR, errno.EBADF, errno.ELOOP)
+MORE_ERRNOS = [errno.EDQUOT, errno.EROFS, errno.EMFILE, errno.ENAMETOOLONG, errno.ENOTDIR, errno.EFBIG]      # thorough tier
 CH = [(0, 2, 0, 2, 0, 1), (2, 4, 0, 2, 0, 1), (0, 2, 2, 3, 0, 1)]
 
 
@@ -55,6 +58,14 @@ def configs(tier, seed):
                 out.append(dict(harness="fault_file", flat=flat, gzip=gz, op=op, cost=2))
     out.append(dict(harness="fault_sharded", strategy="in memory", cost=4, wall=900))
     out.append(dict(harness="fault_sharded", strategy="on disk", cost=6, wall=900))
+    if tier == "thorough":
+        for strategy in ("in memory", "on disk"):
+            for spec in ([1, 1, 0, "gzip", "gzip"], [0, 2, 0, "raw", "gzip"], [1, 1, 1, "gzip", "raw"]):
+                out.append(dict(harness="fault_sharded", strategy=strategy, spec=spec, more_errnos=True, cost=8, wall=1500))
+        for flat in (False, True):
+            for gz in (False, True):
+                for op in ("store_chunk_new", "store_chunk_over", "store_file", "fetch_chunk", "fetch_file", "file_exists"):
+                    out.append(dict(harness="fault_file", flat=flat, gzip=gz, op=op, more_errnos=True, cost=3))
     for enc in ("raw", "compressed_segmentation"):
         for gz in (False, True):
             for over in (False, True):
@@ -108,8 +119,9 @@ def H_fault_file(ctx, cfg):
     ni = SInt.var("call", "int")
     ctx.assume(z3.And(ni.e >= 0, ni.e < n_calls))
     ei = SInt.var("errno", "int")
-    ctx.assume(z3.And(ei.e >= 0, ei.e < len(ERRNOS)))
-    n, e = ni.__index__(), ERRNOS[ei.__index__()]
+    errnos = ERRNOS + (MORE_ERRNOS if cfg.get("more_errnos") else [])
+    ctx.assume(z3.And(ei.e >= 0, ei.e < len(errnos)))
+    n, e = ni.__index__(), errnos[ei.__index__()]
     fault = [n, errno.errorcode[e], None, None]
     ctx.input("fault", fault)
     site = None
@@ -150,7 +162,7 @@ def H_fault_file(ctx, cfg):
             ctx.prove(ok if isinstance(ok, bool) else ok.e, "operation-returned-normally-despite-failed-call-with-right-data", detail=str(site))
         elif cfg["op"] == "file_exists":
             # a probe failing with ENOENT *is* the operating system saying "no such file"
-            ctx.prove(r is True or e == errno.ENOENT, "probe-returned-despite-failed-call-with-right-answer", detail=f"{site} -> {r}")
+            ctx.prove(r is True or e in NO_SUCH_FILE, "probe-returned-despite-failed-call-with-right-answer", detail=f"{site} -> {r}")
         else:
             ctx.fail("store-returned-normally-although-a-call-failed", detail=f"{cfg['op']} call {n} {site} {errno.errorcode[e]}")
             return
@@ -172,26 +184,47 @@ def H_fault_file(ctx, cfg):
         ctx.prove(ok if isinstance(ok, bool) else ok.e, "earlier-chunk-unchanged")
 
 
+def _sharded_positions(spec):
+    """chunk positions of the 2x2x2 grid for the fault harness: two chunks stored earlier and two new ones that the
+    sharding spec routes to *other* shard files (a writer replaces the shard files it touches as a whole, so only chunks
+    in untouched shards are 'stored earlier' in the sense of the property)"""
+    m, s_, p_ = spec[:3]
+
+    def shard(i):
+        return (i >> (p_ + m)) & ((1 << s_) - 1)
+
+    def coords(i):
+        x, y, z = i & 1, (i >> 1) & 1, (i >> 2) & 1
+        return (x, x + 1, y, y + 1, z, z + 1)
+    old = [0, 1]
+    new = [i for i in range(2, 8) if shard(i) not in {shard(j) for j in old}][:2]
+    if len(new) < 2:
+        raise ValueError(f"sharding spec {spec} keeps everything in the shards of the earlier chunks")
+    return [coords(i) for i in old], [coords(i) for i in new]
+
+
 def H_fault_sharded(ctx, cfg):
     env = Env()
     sb, sfa = S.setup(env)
     strategy = cfg.get("strategy", "in memory")
     grid = (2, 2, 2)
-    info = S.make_info(grid, 1, 1, 1, 0)
+    info = S.make_info(grid, 1, *cfg.get("spec", [1, 1, 0, "raw", "raw"]))
+    errnos = ERRNOS + (MORE_ERRNOS if cfg.get("more_errnos") else [])
+    (c_old0, c_old1), (c_new0, c_new1) = _sharded_positions(cfg.get("spec", [1, 1, 0]))
     acc = sfa.ShardedFileAccessor(S.BASE, strategy=strategy)
     acc.info = copy.deepcopy(info)
     p0, p1 = S.payload("a", 2), S.payload("b", 3)
-    acc.store_chunk(p0, S.KEY, (0, 1, 0, 1, 0, 1))     # id 0 -> shard 0
-    acc.store_chunk(p1, S.KEY, (1, 2, 0, 1, 0, 1))     # id 1 -> shard 0
+    acc.store_chunk(p0, S.KEY, c_old0)
+    acc.store_chunk(p1, S.KEY, c_old1)
     acc.close()
     env.run_atexit()
     new, new2 = S.payload("n", 2), S.payload("m", 1)
     ctx.input("payloads", [list(p0.bs), list(p1.bs), list(new.bs), list(new2.bs)])
 
     def write(w):
-        # ids 2 and 3 -> shard 1 (another file), two different minishards
-        w.store_chunk(new, S.KEY, (0, 1, 1, 2, 0, 1))
-        w.store_chunk(new2, S.KEY, (1, 2, 1, 2, 0, 1))
+        # two chunks that go to other shard files than the earlier ones
+        w.store_chunk(new, S.KEY, c_new0)
+        w.store_chunk(new2, S.KEY, c_new1)
         w.close()
     w = sfa.ShardedFileAccessor(S.BASE, strategy=strategy)
     w.info = copy.deepcopy(info)
@@ -206,11 +239,11 @@ def H_fault_sharded(ctx, cfg):
     ni = SInt.var("call", "int")
     ctx.assume(z3.And(ni.e >= 0, ni.e < n_calls))
     ei = SInt.var("errno", "int")
-    ctx.assume(z3.And(ei.e >= 0, ei.e < len(ERRNOS)))
-    n, e = ni.__index__(), ERRNOS[ei.__index__()]
+    ctx.assume(z3.And(ei.e >= 0, ei.e < len(errnos)))
+    n, e = ni.__index__(), errnos[ei.__index__()]
     ctx.input("fault", [n, errno.errorcode[e], kinds[n], kinds[:n].count(kinds[n])])
     ctx.input("kinds", kinds)
-    if kinds[n] in ("is_file", "exists", "is_dir") and e == errno.ENOENT:
+    if kinds[n] in ("is_file", "exists", "is_dir") and e in NO_SUCH_FILE:
         ctx.ok("probe-answered-no-such-file")         # ENOENT on a probe *is* the operating system's answer
         return
     env.fs.fail_at = (env.fs.calls + n, e)
@@ -235,7 +268,7 @@ def H_fault_sharded(ctx, cfg):
         return
     r = sfa.ShardedFileAccessor(S.BASE)
     r.info = copy.deepcopy(info)
-    for cc, pl in (((0, 1, 0, 1, 0, 1), p0), ((1, 2, 0, 1, 0, 1), p1)):
+    for cc, pl in ((c_old0, p0), (c_old1, p1)):
         try:
             got = r.fetch_chunk(S.KEY, cc)
         except Exception as exc:
@@ -514,7 +547,7 @@ def replay(cfg, cex):
                 return True, f"{cfg['op']} returned normally although {opname}#{occ} failed with {ename}"
             if r != "raised" and cfg["op"] == "fetch_chunk" and r != p0:
                 return True, f"fetch_chunk returned {r!r} after a failed {opname}"
-            if r != "raised" and cfg["op"] == "file_exists" and r is not True and e != errno.ENOENT:
+            if r != "raised" and cfg["op"] == "file_exists" and r is not True and e not in NO_SUCH_FILE:
                 return True, f"file_exists returned {r!r} although the probe failed with {ename} (the file exists)"
             reader = fa.FileAccessor(os.path.join(td, "ds"), flat=cfg["flat"], gzip=cfg["gzip"])
             for cc_, pl in ((CH[0], p0), (CH[1], p1)):
@@ -747,26 +780,27 @@ def _replay_fault_sharded(cfg, inp):
     n, ename, kind, occ = inp["fault"]
     e = getattr(errno, ename)
     strategy = cfg.get("strategy", "in memory")
-    info = S.make_info((2, 2, 2), 1, 1, 1, 0)
+    info = S.make_info((2, 2, 2), 1, *cfg.get("spec", [1, 1, 0, "raw", "raw"]))
 
     def boom(k):
         raise OSError(e, os.strerror(e))
+    (c_old0, c_old1), (c_new0, c_new1) = _sharded_positions(cfg.get("spec", [1, 1, 0]))
     with tempfile.TemporaryDirectory() as top:
         results = {}
         for armed in (False, True):
             td = os.path.join(top, "armed" if armed else "dry")
             acc = sfa.ShardedFileAccessor(td, strategy=strategy)
             acc.info = copy.deepcopy(info)
-            acc.store_chunk(p0, S.KEY, (0, 1, 0, 1, 0, 1))
-            acc.store_chunk(p1, S.KEY, (1, 2, 0, 1, 0, 1))
+            acc.store_chunk(p0, S.KEY, c_old0)
+            acc.store_chunk(p1, S.KEY, c_old1)
             acc.close()
             with _Interposer(sfa, top, boom) as ip:
                 try:
                     w = sfa.ShardedFileAccessor(td, strategy=strategy)
                     w.info = copy.deepcopy(info)
                     ip.reset((kind, occ) if armed else None)         # the model counts from the first store_chunk on
-                    w.store_chunk(new, S.KEY, (0, 1, 1, 2, 0, 1))
-                    w.store_chunk(new2, S.KEY, (1, 2, 1, 2, 0, 1))
+                    w.store_chunk(new, S.KEY, c_new0)
+                    w.store_chunk(new2, S.KEY, c_new1)
                     w.close()
                     results[armed] = None
                 except Exception as exc:
@@ -786,7 +820,7 @@ def _replay_fault_sharded(cfg, inp):
             return True, f"{strategy}: {kind} #{occ} failing with {ename} surfaced as {type(exc).__name__}: {exc}"
         r = sfa.ShardedFileAccessor(os.path.join(top, "armed"))
         r.info = copy.deepcopy(info)
-        for cc, pl in (((0, 1, 0, 1, 0, 1), p0), ((1, 2, 0, 1, 0, 1), p1)):
+        for cc, pl in ((c_old0, p0), (c_old1, p1)):
             try:
                 got = r.fetch_chunk(S.KEY, cc)
             except Exception as exc2:
